@@ -767,4 +767,48 @@ theorem expire_moves_earlier (T : Table) (pre post : List FLabel) (l : FLabel) (
     obtain ⟨⟨g, hg⟩, hm, hcb⟩ := h f o hp
     exact (expire_commutes T f g l hg hl hm hcb).symm)
 
+/-- **What `enabled` leaves out is exactly the two reductions (and reads out of script order)**: every
+    harness label that can be executed in `f` is offered by `enabled` — every statement of the main
+    goroutine, every statement of every callback, the return of the pending read with the next
+    scripted input — except a `Close()` (offered only in front of a `select`, while one is still to
+    come), a timer expiry (offered only right after the arming `anywhere`) and a read return with
+    something else than the next scripted input. -/
+theorem enabled_complete (T : Table) (f : FSys) (ins : List Nat) (mc : Bool) (l : SLabel)
+    (h : (sstep T f l).isSome = true) :
+    l ∈ enabled T f ins mc ∨ l = .close ∨ l = .expire ∨
+      (∃ i, l = .read i ∧ i ≠ (match ins with | r :: _ => Inp.rune r | [] => Inp.eof)) := by
+  cases l with
+  | close => exact Or.inr (Or.inl rfl)
+  | expire => exact Or.inr (Or.inr (Or.inl rfl))
+  | cb k =>
+    left
+    have hk : k < f.cbs.length := by
+      rcases Nat.lt_or_ge k f.cbs.length with h' | h'
+      · exact h'
+      · exfalso
+        have hn : f.cbs[k]? = none := List.getElem?_eq_none h'
+        simp [sstep, canRelease, expand, hn, FSys.run, FSys.step, cbStep] at h
+    simp only [enabled, List.mem_append, List.mem_filterMap, List.mem_range]
+    exact Or.inl (Or.inr ⟨k, hk, by simp [h]⟩)
+  | main =>
+    left
+    have hne : f.mpc ≠ .inRead := by
+      intro hc; simp [sstep, canRelease, hc] at h
+    simp only [enabled, List.mem_append]
+    refine Or.inr ?_
+    simp [hne, h]
+  | read i =>
+    by_cases hi : i = (match ins with | r :: _ => Inp.rune r | [] => Inp.eof)
+    · left
+      have hpc : f.mpc = .inRead := by
+        by_cases hc : f.mpc = .inRead
+        · exact hc
+        · exfalso; simp [sstep, canRelease, expand, FSys.run, FSys.step, hc] at h
+      subst hi
+      simp only [enabled, List.mem_append]
+      refine Or.inr ?_
+      simp [hpc]
+      cases ins <;> rfl
+    · exact Or.inr (Or.inr (Or.inr ⟨i, rfl, hi⟩))
+
 end VaxisModel.Props.C08Sched
